@@ -1,7 +1,9 @@
 //@ assume: Chain's collaborators are abstract: the RwLock guards are plain values (T6: `self.header_pmmr.write()` => self.header_pmmr_write(), `self.txhashset.write()` => self.txhashset_write(); lock order is C17, not decided here); the cached segmenter cell (`pibd_segmenter: Arc<RwLock<Option<Segmenter>>>`) is read through pibd_segmenter_get() (T6 for `self.pibd_segmenter.read().as_ref()`) and written through pibd_segmenter_set(v) (T6 for `let mut cache = self.pibd_segmenter.write(); *cache = v;`); ASSUMED of the cell: what it holds was put there by pibd_segmenter_set, whose precondition -- the segmenter's bitmap snapshot was taken at the segmenter's own header -- is therefore an invariant of the cell (segmenter() is its only writer); BlockHeader is plain data (an identity and a height: two headers at the same height need not be the same header); the extension's rewind moves it to the header given, bitmap_accumulator() hands out the accumulator as of where the extension stands; txhashset::extending_readonly returns what its closure returns (the closure is lifted and verified, T7); Segmenter::new stores its three arguments; `Arc::new` is the identity on the value; `let ref x = e?;` => `let x_v = e?; let x = &x_v;`; `let now = Instant::now();` (only used by a log line) dropped; T3: log macros removed
+//@ assume: the desegmenter cell (`pibd_desegmenter: Arc<RwLock<Option<Desegmenter>>>`) is a ghost in/out parameter `cell` of Chain::desegmenter: `.write().as_ref()` => pibd_desegmenter_get(cell), `let mut cache = ...write(); *cache = v;` => pibd_desegmenter_set(v, cell), `self.pibd_desegmenter.clone()` => an opaque handle; Desegmenter::new stores the header it is given; global::state_sync_threshold / txhashset_archive_interval are uninterpreted constants (interval > 0); Chain::head / get_header_by_height are abstract reads
+//@ assume: decided here (C16): Chain::txhashset_archive_header returns the header OUR chain has at (body head height - sync threshold, not below 0) rounded DOWN to a multiple of the archive interval -- no subtraction underflows; Chain::desegmenter leaves in the cell a desegmenter for exactly the archive header asked for, reusing the cached one only if its header IS that header
 //@ assume: decided here (C16, 'a segment of any state MMR produced by a node validates against the archive header's roots', the segmenter the segments are cut from): Chain::segmenter returns a segmenter FOR THE CURRENT ARCHIVE HEADER -- the same header, not merely one at the same height -- whose bitmap snapshot was taken with the txhashset rewound to THAT header: a cached segmenter is reused only if its header IS the archive header (after a reorganisation below the archive height the archive header changes while its height does not), a fresh one is built by init_segmenter, which rewinds a read-only extension to the header it is given and snapshots the bitmap accumulator there, and is cached
-//@ assumed_items: 9
-//@ fns: Chain::segmenter, Chain::init_segmenter (+ its closure)
+//@ assumed_items: 15
+//@ fns: Chain::segmenter, Chain::init_segmenter (+ its closure), Chain::txhashset_archive_header, Chain::desegmenter, Chain::init_desegmenter
 #[derive(Clone, Copy, PartialEq, Eq, Structural)]
 pub struct BlockHeader { pub id: u64, pub height: u64 }
 impl BlockHeader { pub fn clone(&self) -> (r: BlockHeader) ensures r == *self { *self } }
@@ -41,11 +43,73 @@ pub mod txhashset {
     pub fn extending_readonly<'a>(h: &mut HeaderPmmr, t: &mut TxHashSet, f: SegClosure<'a>) -> (r: Result<BitmapAccumulator, Error>)
         ensures r matches Ok(b) ==> b.of@ == *f.header { unimplemented!() }
 }
-pub uninterp spec fn sp_archive_header(c: Chain) -> BlockHeader;
-pub struct Chain { pub _p: u8 }
+/// the archive header: the header our chain has at the archive height
+pub open spec fn sp_archive_height(c: Chain) -> u64 { let t = if sp_body_head_height(c) >= sp_threshold() as u64 { (sp_body_head_height(c) - sp_threshold() as u64) as u64 } else { 0u64 }; (t - t % sp_interval()) as u64 }
+pub open spec fn sp_archive_header(c: Chain) -> BlockHeader { sp_header_at(c, sp_archive_height(c))->Some_0 }
+#[derive(Clone, Copy)]
+pub struct Desegmenter { pub header: BlockHeader }
+impl Desegmenter {
+    pub fn new(t: TxHashSetHandle, h: HeaderPmmrHandle, header: BlockHeader, genesis: BlockHeader, store: StoreHandle) -> (r: Desegmenter) ensures r.header == header { Desegmenter { header } }
+    pub fn header(&self) -> (r: &BlockHeader) ensures *r == self.header { &self.header }
+    pub fn clone(&self) -> (r: Desegmenter) ensures r == *self { *self }
+}
+#[derive(Clone, Copy)]
+pub struct HeaderPmmrHandle { pub _p: u8 }
+#[derive(Clone, Copy)]
+pub struct StoreHandle { pub _p: u8 }
+/// the shared desegmenter cell (`Arc<RwLock<Option<Desegmenter>>>`): what it holds is ghost state handed in and out of Chain::desegmenter
+pub tracked struct DesegCell { pub ghost content: Option<Desegmenter> }
+#[derive(Clone, Copy)]
+pub struct DesegCellHandle { pub _p: u8 }
+pub struct Genesis { pub header: BlockHeader }
+pub uninterp spec fn sp_body_head_height(c: Chain) -> u64;
+pub uninterp spec fn sp_header_at(c: Chain, height: u64) -> Option<BlockHeader>;
+pub struct Tip { pub height: u64 }
+pub mod global {
+    use super::*;
+    #[verifier::external_body]
+    pub fn state_sync_threshold() -> (r: u32) ensures r == sp_threshold() { unimplemented!() }
+    #[verifier::external_body]
+    pub fn txhashset_archive_interval() -> (r: u64) ensures r == sp_interval(), r > 0 { unimplemented!() }
+}
+pub uninterp spec fn sp_threshold() -> u32;
+pub uninterp spec fn sp_interval() -> u64;
+pub struct Chain { pub genesis: Genesis, pub header_pmmr: HeaderPmmrHandle, pub store: StoreHandle, pub _p: u8 }
 impl Chain {
     #[verifier::external_body]
-    pub fn txhashset_archive_header(&self) -> (r: Result<BlockHeader, Error>) ensures r matches Ok(h) ==> h == sp_archive_header(*self) { unimplemented!() }
+    pub fn head(&self) -> (r: Result<Tip, Error>) ensures r matches Ok(t) ==> t.height == sp_body_head_height(*self) { unimplemented!() }
+    #[verifier::external_body]
+    pub fn get_header_by_height(&self, height: u64) -> (r: Result<BlockHeader, Error>) ensures r matches Ok(h) ==> sp_header_at(*self, height) == Some(h) { unimplemented!() }
+    #[verifier::external_body]
+    pub fn pibd_desegmenter_get(&self, Tracked(cell): Tracked<&DesegCell>) -> (r: Option<&Desegmenter>)
+        ensures match r { Some(d) => cell.content == Some(*d), None => cell.content is None } { unimplemented!() }
+    #[verifier::external_body]
+    pub fn pibd_desegmenter_set(&self, v: Option<Desegmenter>, Tracked(cell): Tracked<&mut DesegCell>) ensures final(cell).content == v { unimplemented!() }
+    #[verifier::external_body]
+    pub fn pibd_desegmenter_handle(&self) -> (r: DesegCellHandle) { unimplemented!() }
+//@ extract chain/src/chain.rs :: impl Chain::txhashset_archive_header
+//@   strip_logs
+//@   after `let mut txhashset_height = body_head.height.saturating_sub(sync_threshold);`:
+//@+    assert(txhashset_height % archive_interval <= txhashset_height) by(nonlinear_arith) requires archive_interval > 0;
+//@   ensures:
+//@+    // the header OUR chain has at (body head height - state sync threshold) rounded DOWN to a multiple of the archive interval
+//@+    r matches Ok(h) ==> h == sp_archive_header(*self),
+//@ end
+//@ extract chain/src/chain.rs :: impl Chain::init_desegmenter
+//@   strip_logs
+//@   ensures:
+//@+    r matches Ok(d) ==> d.header == *header,
+//@ end
+//@ extract chain/src/chain.rs :: impl Chain::desegmenter
+//@   sigrewrite `archive_header: &BlockHeader,\n\t)` => `archive_header: &BlockHeader,\n\t\tTracked(cell): Tracked<&mut DesegCell>,\n\t)`
+//@   sigrewrite `Result<Arc<RwLock<Option<Desegmenter>>>, Error>` => `Result<DesegCellHandle, Error>`
+//@   rewrite `self.pibd_desegmenter.write().as_ref()` => `self.pibd_desegmenter_get(Tracked(&*cell))`
+//@   rewrite `let mut cache = self.pibd_desegmenter.write();\n\t\t*cache = Some(desegmenter.clone());` => `self.pibd_desegmenter_set(Some(desegmenter.clone()), Tracked(cell));`
+//@   rewrite `self.pibd_desegmenter.clone()` => `self.pibd_desegmenter_handle()` x2
+//@   ensures:
+//@+    // whatever the cell held before, on Ok it holds a desegmenter FOR THE ARCHIVE HEADER ASKED FOR (the same header, not one at the same height)
+//@+    r.is_ok() ==> (final(cell).content matches Some(d) && d.header == *archive_header),
+//@ end
     #[verifier::external_body]
     pub fn pibd_segmenter_get(&self) -> (r: Option<&Segmenter>) ensures r matches Some(s) ==> sp_seg_ok(*s) { unimplemented!() }
     #[verifier::external_body]
